@@ -51,11 +51,22 @@ pub fn linearizer_bounds(
     domain: &IndexMap<String, DomainVariable>,
     constraints: &[Constraint],
 ) -> BoundsReport {
-    analyze_bounds(
-        domain,
-        &crate::transformers::linearizer::normalized_for_bounds(constraints),
-        &[],
-    )
+    let normalized = crate::transformers::linearizer::normalized_for_bounds(constraints);
+    let analyzer = BoundsAnalyzer::analyze(domain, &normalized).enforceable(domain);
+    let variables = domain
+        .keys()
+        .map(|name| {
+            let b = analyzer.bounds_of(&Exp::Variable(name.clone()));
+            (name.clone(), b.lower, b.upper)
+        })
+        .collect();
+    let mut tightened = domain.clone();
+    analyzer.apply_to_domain(&mut tightened);
+    BoundsReport {
+        variables,
+        expressions: vec![],
+        domain: tightened,
+    }
 }
 
 /// `float_lt(a, b)` of `math_utils` (crate-private there).
